@@ -222,7 +222,11 @@ def observe_view(bsp: BSP, name: str):
     if name == 'pakfile':
         return {zi.filename: v.read(zi.filename).hex() for zi in v.infolist()}
     if name == 'ents':
-        return o_ents(v)
+        res = o_ents(v)
+        # which of the two output separators the lump uses is part of what was read (a map for an older engine must keep its commas)
+        if any(e['outputs'] for e in [res['spawn']] + res['ents']):
+            res['comma_sep'] = bsp.out_comma_sep
+        return res
     if name == 'textures':
         # the string table is derived from the materials in use; order and duplicates are the writer's business
         return sorted({t.casefold() for t in v})
@@ -444,7 +448,7 @@ def gen_ents(r: Rng, comma: bool, nbrush: int):
         if r.chance(0.5):
             e['targetname'] = r.pick(['relay', 'door', 'a b', 'quote"d', 'back\\slash', 'multi\nline'])
         if r.chance(0.3):
-            e['message'] = r.pick(['a,b', 'x, y, z', 'one,two,three,four,five', 'tab\there', '1,2,3,4,5,6', 'relay,Trigger,,0,-1,9'])
+            e['message'] = r.pick(['a,b', 'x, y, z', 'one,two,three,four', 'tab\there', '1,2,3,4,5,6', 'relay,Trigger,,0,-1,9'])   # never exactly four commas: that is the reader's documented test for an old-style output
         for _ in range(r.randrange(0, 3)):
             e.add_out(Output(r.pick(['OnTrigger', 'OnUser1']), r.pick(['relay', '!self', 'door']), r.pick(['Trigger', 'Kill']),
                              r.pick(['', '1', 'a b']), f32(r.pick([0.0, 1.0, 0.5, 2.25])), times=r.pick([-1, 1]), comma_sep=comma))
